@@ -7,17 +7,16 @@
 
    Scope of the general theorems: histories built from all seven entry points (send / query /
    search / getaddrinfo / gethostbyname / gethostbyaddr / getnameinfo and the legacy variants of
-   the first three), ares_cancel from the application and from callbacks, ares_process_fds,
-   ares_destroy; all scripts (calls made from inside callbacks, nested), all tapes (server
+   the first three), ares_cancel and ares_set_servers*/ares_reinit from the application and from
+   callbacks, ares_process_fds, ares_destroy; all scripts (calls made from inside callbacks, nested), all tapes (server
    behaviour, cache results, timeouts, socket results, server choice), all fuel.
    For getaddrinfo / gethostbyname the proofs cover struct host_query shared by the A and AAAA
    queries: the "remaining" counter against the queries that point at it, a query completing
    inside the call that submits it (cache hit, send failure) while the second one is still to be
    submitted, next_lookup / end_hquery, "*qid = id" through &hquery->qid_a.
-   MISSING: completeness when ares_cancel returns (complete_at_cancel) is checked by the monitor
-   only; sufficiency of the fuel is not proved (the theorems speak about every fuel; the
-   correspondence run reports fuel exhaustion as a difference); ares_set_servers*() /
-   ares_reinit() are not part of the model (known finding C01 in findings/C01.json). *)
+   Completeness when ares_cancel returns (complete_at_cancel) is refuted for the code as it is
+   (C01_complete_at_cancel_refuted) and checked by the monitor on generated histories; sufficiency of the fuel is not proved (the theorems speak about every fuel; the
+   correspondence run reports fuel exhaustion as a difference). *)
 From Coq Require Import List ZArith.
 Import ListNotations.
 From CAres.Base Require Import Outcome.
@@ -61,7 +60,7 @@ Print Assumptions C01_exactly_once_on_destroy.
 (* ... and so it is at every point of a history at which no query is outstanding *)
 Theorem C01_exactly_once_on_quiescence :
   forall cf fuel h s, cf_fix cf = all_fixed -> NoDup (hist_toks h) ->
-  run_from cf fuel h init_state = Ok (false, s) -> linked s = [] ->
+  run_from cf fuel h (init_state cf) = Ok (false, s) -> linked s = [] ->
   (forall t, count_cb (st_trace s) t = count_req (st_trace s) t) /\ at_most_once (rev (st_trace s)).
 Proof. exact run_from_quiescent. Qed.
 Print Assumptions C01_exactly_once_on_quiescence.
@@ -80,6 +79,16 @@ Proof.
   split; [vm_compute; repeat constructor; simpl; intuition discriminate|]. split; [vm_compute; reflexivity|].
   split; [vm_compute; repeat constructor; simpl; intuition discriminate|]. vm_compute. reflexivity.
 Qed.
+
+(* before fixes/C01-cancel-complete.patch "when ares_cancel() returns every request made before it
+   has completed" did not hold: a query waiting in ares_cancel's private list could be completed
+   with a connection error by a callback of an earlier cancelled request, and a gethostbyaddr /
+   getnameinfo configured with two DNS lookups then went on with a new query that survived the
+   cancellation.  The witness is the LC trace of the real library without that fix. *)
+Theorem C01_pinned_cancel_incomplete_refuted :
+  exists cf fuel h final tr, cf_fix cf = without_cancelmark /\ run cf fuel h final = Ok tr /\ ~ complete_at_cancel tr.
+Proof. exact cancel_incomplete. Qed.
+Print Assumptions C01_pinned_cancel_incomplete_refuted.
 
 (* ---- the pinned tree does not satisfy the property: one witness per defect ---- *)
 Theorem C01_pinned_cancel_in_callback_refuted :
